@@ -4,6 +4,7 @@
 //! or a witness result.
 mod archive;
 mod cli;
+mod confid;
 mod enc;
 mod history;
 mod keys;
@@ -57,6 +58,8 @@ fn main() {
         "c16" => cli::c16_cases(&mut rng, &tier, &mut out),
         "c02" => repair::c02_cases(&mut rng, &tier, &mut out),
         "c05" => repair::c05_cases(&mut rng, &tier, &mut out),
+        "c07" => confid::c07_cases(&mut rng, &tier, &mut out),
+        "c07-child" => confid::child(),
         "c10" => history::c10_cases(&mut rng, &tier, &mut out),
         "c12" => history::c12_cases(&mut rng, &tier, &mut out),
         "c13" => history::c13_cases(&mut rng, &tier, &mut out),
